@@ -232,6 +232,28 @@ def one_case(n, chunksize, pool_kind, vectorisable, vec_setting, ret, fn, unit, 
     if chunksize and fn == "log_likelihood" and seen and (vectorisable and (pool is None or pool_kind[0] == "sized")):
         if max(len(s) for s in seen) > chunksize:
             errs.append(("chunk-larger-than-chunksize", f"{[len(s) for s in seen]} {txt}"))
+    if n > 0:
+        # second round: the SAME buffer refilled in place with other values (exact in binary) -
+        # the answer must be the pointwise values at the new contents, counted once
+        for nm_, a_, b_ in (("x0", 0.5, 0.125), ("x1", 0.25, 0.25)) if (unit or fn == "log_prior_unit_hypercube") else (("x0", 0.5, -0.75), ("x1", -0.5, 1.5)):
+            x[nm_][:] = x[nm_][::-1] * a_ + b_
+        cnt1 = model.likelihood_evaluations
+        try:
+            if fn == "log_likelihood":
+                out2 = model.batch_evaluate_log_likelihood(x, unit_hypercube=unit)
+            elif fn == "log_prior":
+                out2 = model.batch_evaluate_log_prior(x, unit_hypercube=unit)
+            else:
+                out2 = model.batch_evaluate_log_prior_unit_hypercube(x)
+        except Exception as e:
+            errs.append((f"second-round-raises-{type(e).__name__}:{fn}", f"{e} {txt}"))
+            return 1
+        ref2, _ = reference(refm, x, fn, unit)
+        out2 = np.asarray(out2)
+        if out2.shape != (n,) or out2.astype("f8").tobytes() != ref2.tobytes():
+            errs.append((f"second-use-of-a-refilled-buffer:values-or-order:{fn}", f"{out2} vs {ref2} {txt}"))
+        if fn == "log_likelihood" and model.likelihood_evaluations - cnt1 != n:
+            errs.append(("second-use-of-a-refilled-buffer:evaluation-counter", f"+{model.likelihood_evaluations - cnt1} for {n} points {txt}"))
     return 1
 
 
